@@ -356,3 +356,61 @@ package inprocgrpc
 //@   ensures[C18] unmarshal_result_is_returned: called("encoding.Codec.Unmarshal") ==> result == lastresult("encoding.Codec.Unmarshal")
 //@   ensures[C18] marshals_exactly_once: calls("encoding.Codec.Marshal") == 1
 //@   modifies external
+
+// ---- configuration and thin wrappers ----
+//
+//@ func (*Channel).RegisterService
+//@   requires desc != nil
+//@   ensures[C15,C12] registered_in_the_channels_own_registry_once: calls("(grpchan.HandlerMap).RegisterService") == 1 && c.handlers != nil
+//@   assert_call[C15,C12] (grpchan.HandlerMap).RegisterService : arg0 == c.handlers && arg1 == desc && arg2 == svr && c.handlers != nil
+//@   modifies c.handlers, maps("grpchan.HandlerMap")
+//
+//@ func (*Channel).GetServiceInfo
+//@   requires keys_are_service_names: forall k string :: has(c.handlers, k) ==> c.handlers[k].desc != nil && c.handlers[k].desc.ServiceName == k
+//@   ensures[C15] no_registry_no_info: old(c.handlers) == nil ==> result == nil && !called("(grpchan.HandlerMap).GetServiceInfo")
+//@   ensures[C15] otherwise_the_registry_is_asked_once: old(c.handlers) != nil ==> calls("(grpchan.HandlerMap).GetServiceInfo") == 1
+//@   ensures[C15] and_its_answer_is_returned: called("(grpchan.HandlerMap).GetServiceInfo") ==> result == lastresult("(grpchan.HandlerMap).GetServiceInfo")
+//@   assert_call[C15] (grpchan.HandlerMap).GetServiceInfo : arg0 == c.handlers
+//@   modifies nothing
+//
+//@ func (*Channel).WithServerUnaryInterceptor
+//@   ensures[C16] result == c && c.unaryInterceptor == interceptor
+//@   modifies c.unaryInterceptor
+//
+//@ func (*Channel).WithServerStreamInterceptor
+//@   ensures[C16] result == c && c.streamInterceptor == interceptor
+//@   modifies c.streamInterceptor
+//
+//@ func (*Channel).WithCloner
+//@   ensures[C06,C18] result == c && c.cloner == cloner
+//@   modifies c.cloner
+//
+// The decode callback handed to a unary handler: copies the caller's request into
+// the handler's message through the channel's cloner (never hands over the request itself).
+//@ closure (*Channel).Invoke.codec
+//@   ensures[C06,C01] copies_the_request_once: calls("inprocgrpc.Cloner.Copy") == 1 && result == lastresult("inprocgrpc.Cloner.Copy")
+//@   assert_call[C06,C01] inprocgrpc.Cloner.Copy : request_into_the_handlers_message: arg0 == cloner && arg1 == out && arg2 == req
+//@   modifies everything
+//
+//@ func (*inProcessClientStream).Context
+//@   ensures[C04,C10] result == s.ctx
+//@   modifies nothing
+//
+//@ func (*inProcessServerStream).Context
+//@   ensures[C04,C10] result == s.ctx
+//@   modifies nothing
+//
+//@ func (*inProcessServerStream).SetHeader
+//@   ensures[C03] sets_without_sending: calls("(*inProcessServerStream).setHeader") == 1 && result == lastresult("(*inProcessServerStream).setHeader")
+//@   assert_call[C03] (*inProcessServerStream).setHeader : arg0 == s && arg1 == md && !arg2
+//@   modifies everything
+//
+//@ func (*inProcessServerStream).SendHeader
+//@   ensures[C03] sets_and_sends: calls("(*inProcessServerStream).setHeader") == 1 && result == lastresult("(*inProcessServerStream).setHeader")
+//@   assert_call[C03] (*inProcessServerStream).setHeader : arg0 == s && arg1 == md && arg2
+//@   modifies everything
+//
+//@ func (*inProcessServerStream).SetTrailer
+//@   ensures[C03] delegates_to_the_error_reporting_setter: calls("(*inProcessServerStream).TrySetTrailer") == 1
+//@   assert_call[C03] (*inProcessServerStream).TrySetTrailer : arg0 == s && arg1 == md
+//@   modifies everything
